@@ -331,6 +331,64 @@ def table_jobs(ctx):
                     edge_specs.append({"cols": cols, "rows": r, "opts": dict(ov), "avail": w})
     for i in range(0, len(edge_specs), 80):
         jobs.append((40, FLAGS, edge_specs[i:i + 80]))
+    # ---- A4: Column objects handed to the constructor (their `_index` is assigned by Table.__init__), fixed widths, collapsing padding
+    #         with left > right (where the first column differs from the others); Table.grid; consoles that substitute the box
+    #         (legacy_windows / ascii_only / safe_box); cells whose renderables raise
+    misc = []
+    for ncols in (1, 2, 3):
+        cols = [{"header": ("s", "h%d" % i), "footer": ("s", ""), "width": 2 + i, "overflow": "fold"} for i in range(ncols)]
+        rows = [{"cells": [("s", "x")] * ncols, "end_section": False}]
+        for pad in ((0, 1, 0, 3), (0, 0, 0, 2), (0, 3, 0, 1), (1, 2)):
+            for cp in (False, True):
+                for via in (False, True):
+                    for w in (8, 30):
+                        misc.append({"cols": cols, "rows": rows, "opts": {"padding": pad, "collapse_padding": cp, "box": "ASCII"},
+                                     "via_column_objects": via, "avail": w})
+    gcols = [{"header": ("s", ""), "footer": ("s", ""), "overflow": "fold"}, {"header": ("s", ""), "footer": ("s", ""), "overflow": "fold", "ratio": 1},
+             {"header": ("s", ""), "footer": ("s", ""), "overflow": "fold", "justify": "right"}]
+    grows = [{"cells": [("s", "left"), ("s", "the middle cell has words"), ("s", "r")], "end_section": False},
+             {"cells": [("s", "あい"), ("none",), ("t", "x\ny", None)], "end_section": True}]
+    for g in ({}, {"expand": True}, {"padding": 1}, {"padding": (0, 2), "collapse_padding": False}, {"pad_edge": True, "expand": True, "padding": (1, 1)}):
+        for w in (3, 6, 11, 20, 33):
+            misc.append({"cols": gcols, "rows": grows, "opts": {}, "via_grid": dict(g), "avail": w})
+    bcols = [{"header": ("s", "a"), "footer": ("s", "f"), "overflow": "fold"}, {"header": ("s", "bb"), "footer": ("s", ""), "overflow": "fold"}]
+    brows = [{"cells": [("s", "some words"), ("s", "y")], "end_section": True}, {"cells": [("s", "z"), ("panel", "in")], "end_section": False}]
+    for env in ({"legacy_windows": True}, {"ascii": True}, {"legacy_windows": True, "ascii": True}, {"legacy_windows": True, "console_safe_box": False}):
+        for box in ("HEAVY_HEAD", "ROUNDED", "SQUARE", "ASCII2", "CUSTOM", "DOUBLE", "HEAVY_EDGE", None):
+            for sb in (None, True, False):
+                misc.append({"cols": bcols, "rows": brows, "opts": {"box": box, "safe_box": sb, "show_footer": True, "show_lines": True},
+                             "env": dict(env), "avail": 18})
+    for mode in ("measure", "render", "both", "narrow"):
+        for where in ("header", "cell", "footer-hidden", "late-row"):
+            cols = [{"header": ("s", "a"), "footer": ("s", ""), "overflow": "fold"}, {"header": ("s", "b"), "footer": ("s", ""), "overflow": "fold"}]
+            rows = [{"cells": [("s", "some words"), ("s", "y")], "end_section": False}, {"cells": [("s", "z"), ("s", "w")], "end_section": False}]
+            if where == "header":
+                cols[1]["header"] = ("boom", mode)
+            elif where == "cell":
+                rows[0]["cells"] = [("s", "some words"), ("boom", mode)]
+            elif where == "footer-hidden":
+                cols[0]["footer"] = ("boom", mode)      # show_footer is off: never consulted, the table must NOT raise
+            else:
+                rows[1]["cells"] = [("boom", mode), ("s", "w")]
+            for ov in ({}, {"width": 6}, {"expand": True}, {"show_header": False}):
+                for w in (4, 9, 25):
+                    misc.append({"cols": cols, "rows": rows, "opts": dict(ov, box="ASCII"), "avail": w})
+    # styles: table / border / header / footer / row_styles / per-row / per-column styles, cells with their own styles and control
+    # segments, a whitespace-divider box (background rule), rows with FEWER cells than columns, show_lines with end_section
+    scols = [{"header": ("s", "name"), "footer": ("st", "sum", "underline"), "overflow": "fold", "style": "cyan", "header_style": "red"},
+             {"header": ("st", "qty", "italic"), "footer": ("s", "9"), "overflow": "fold", "justify": "right", "footer_style": "on blue"},
+             {"header": ("s", ""), "footer": ("s", ""), "overflow": "fold"}]
+    srows = [{"cells": [("st", "alpha beta", "bold red"), ("s", "1")], "end_section": False, "style": "on green"},
+             {"cells": [("ctl", "ring"), ("t", "22\n3", None), ("s", "x")], "end_section": True},
+             {"cells": [("s", "last")], "end_section": False, "style": "dim"}]
+    for ov in ({}, {"style": "on black"}, {"border_style": "blue"}, {"style": "yellow", "border_style": "bold"}, {"row_styles": ["dim", "none"]},
+               {"row_styles": ["on red"], "box": "SIMPLE"}, {"header_style": None, "footer_style": "bold magenta", "show_footer": True},
+               {"row_styles": ["on red", "on blue", "italic"], "box": "MINIMAL", "show_lines": True, "show_footer": True},
+               {"show_lines": True, "box": "SQUARE"}, {"leading": 1, "box": "HEAVY", "row_styles": ["on white"]}, {"box": None, "style": "bold"}):
+        for w in (12, 22, 40):
+            misc.append({"cols": scols, "rows": srows, "opts": dict({"box": "ASCII"}, **ov), "avail": w})
+    for i in range(0, len(misc), 70):
+        jobs.append((40, FLAGS, misc[i:i + 70]))
     # ---- B: seeded structured random tables: all options, column options, nested cells, ragged columns
     n_bundles = 64 if quick else 1500
     for bi in range(n_bundles):
@@ -355,6 +413,12 @@ def table_jobs(ctx):
                  "has_extra": spec.get("has_extra", False)}
             if rng.random() < 0.35:
                 s["render_opts"] = dict(rng.choice(RENDER_OPTS))
+            if rng.random() < 0.25:
+                o.update(rng.choice([{"style": "on black"}, {"border_style": "green"}, {"row_styles": ["dim", "none"]},
+                                     {"row_styles": ["on red"], "header_style": "italic"}, {"footer_style": None, "style": "cyan"}]))
+            if rng.random() < 0.12:
+                s["env"] = dict(rng.choice([{"legacy_windows": True}, {"ascii": True}, {"legacy_windows": True, "console_safe_box": False}]))
+                o["safe_box"] = rng.choice([None, None, True, False])
             if rng.random() < 0.2:
                 o["min_width"] = rng.choice([0, 5, 12, 25, 50])
             if rng.random() < 0.15:
@@ -443,6 +507,15 @@ MANIFEST = {
     "post-condition).  calc_widths_total / table_render_total / rich_measure_total (with the two assertion defects repaired - fixes 1d61bac, ab98098, in /repo now - "
     "`_calculate_column_widths`, `__rich_console__` and `__rich_measure__` never reach `assert total_ratio > 0` for ANY table with "
     "non-negative options and cells measuring >= 0 - zero columns, ratio 0 columns, any available width included).  "
+    "cell_characters_in_column / cell_span_is_part / text_cell_characters_in_column (the property's sentence on rendered CHARACTERS: "
+    "the parts of column j on the lines of row i, read top to bottom without whitespace, are exactly the non-whitespace characters of the "
+    "cell's source, each part at the proved cell offset and width; for text cells literally, via C02's wrap_fold_keeps_nonspace / "
+    "wrap_lines_fit).  width_bound_general / width_fits_general (ARBITRARY columns - fixed width, min_width, max_width, no_wrap: at or above "
+    "the structural minimum 'first widths of the unshrinkable columns + 1 per shrinkable column' every column keeps >= 1 cell, the "
+    "last-resort ratio_reduce is never used and the table is at most max_width + the sum of the min_width floors wide; "
+    "below_structural_minimum_overflows and min_width_overflows show both limits are attained).  table_exact_collapsed_textlike (the "
+    "re-measure stability hypothesis derived for text-like cells; remeasure_can_shrink: it is not automatic), collapse_widths_le, "
+    "width_fits_any_ratio / table_expand_exact_any_ratio (ratio columns incl. ratio 0).  "
     "Witnesses by `decide` for the six defects of rich 9.10.0 as found: old_table_rect_fails (F16, leading >= 2), old_expand_exact_fails (expand + min_width), "
     "old_expand_ratio_fails (ratio column beside a zero-width column) - at Flags.today; old_expand_stale_width_fails (stale table_width after the "
     "re-measure), old_no_columns_asserts, old_flex_negative_asserts - at Flags.repaired.  Flags.repaired repairs the first three defects only "
@@ -454,14 +527,17 @@ MANIFEST = {
     "title / caption inheriting overflow / no_wrap) with each real cell's oracle "
     "tabulated on real rich for all widths 0..W; `_get_cells` padding rules, `_get_padding_width` and every box row builder compared "
     "exhaustively; the theorems' executable statements evaluated on rich's own output.",
-    "note": "PARTIAL: the `_free` corollaries and width_fits are for tables without active ratio columns whose columns carry no "
-    "width/min_width/no_wrap (the statement's 'no explicit width cap'); table_exact_collapsed assumes the re-measure is stable "
-    "(true of text cells, evaluated on real output); ratio (flexible) columns are covered by table_rect / rows / columns and by table_expand_exact's general form (hypotheses on the first-pass "
+    "note": "PARTIAL: exact expansion (`table_expand_exact_*`) is proved for free columns (no width/min_width/no_wrap: the statement's "
+    "'no explicit width cap') incl. any ratios; for arbitrary columns the theorem is the bound width_bound_general, not exactness; "
+    "`table_exact_collapsed` keeps its stability hypothesis, discharged for text-like cells by `table_exact_collapsed_textlike`; ratio (flexible) columns are covered by table_rect / rows / columns and by table_expand_exact's general form (hypotheses on the first-pass "
     "widths), not by the `_free` corollaries; non-wrappable columns can exceed the available width (ratio_reduce caps: "
     "`ratioReduce 50 [1,1] [100,1] [100,1] = [75,0]`) - outside the statement.  Cells, title and caption are oracles (contract checked per "
     "tabulated entry: rendered lines have exactly the requested width, 0 <= min <= max <= w); that a fold column's cell keeps every "
-    "non-whitespace character is C02's theorem, here only evaluated on real output (the characters found inside the column's span are compared with the cell's SOURCE text).  Not modelled: styles/row_styles, Box.substitute "
-    "(legacy_windows / ascii_only consoles).  Table.__rich_measure__ is modelled (`Table.richMeasure`) and compared per table.  "
+    "non-whitespace character is C02's theorem, here only evaluated on real output (the characters found inside the column's span are compared with the cell's SOURCE text).  Styles are not in the Lean model; they are checked by direct evaluation (cell_styles / border_styles: every printed character carries "
+    "table.style + row style + header/column/footer style + its own style, blank fill and separators likewise), as are add_row's "
+    "rectangularity and a fixed column's width + padding BY POSITION.  Box.substitute (legacy_windows / ascii_only / safe_box) is modelled "
+    "through C08's Frames.substituteBox; a cell whose renderable raises makes the table raise exactly when it is consulted; control segments "
+    "are transparent; Table.grid and Column objects are exercised; Column has no vertical alignment in 9.10.  Table.__rich_measure__ is modelled (`Table.richMeasure`) and compared per table.  "
     "Tables without columns are compared (widths, lines, measure, the AssertionError) but are outside the rectangle statement.  Domain of the direct evaluation: 'no negative column width' everywhere; the rest at available width >= structural "
     "minimum (1 cell per free column, width/min_width + padding otherwise), exactness / positivity with ratio None or >= 1.  Trusted: Lean kernel, axioms "
     "propext/Classical.choice/Quot.sound, translators harness/tables.py + harness/gen/table_boxes.py, the correspondence harness.  "
